@@ -191,7 +191,7 @@ def correspondence(tier, seed):
     cases = gen.generate(seed, tier)
     model, impl, errors = runner.run_all(cases)
     findings = oracles.all_findings(cases, impl)
-    xcases, xmodel, ximpl, xfind = extra.run(seed, tier)
+    xcases, xmodel, ximpl, xfind = extra.run(seed, tier, cases, impl)
     cases += xcases
     model.update(xmodel)
     impl.update(ximpl)
